@@ -54,9 +54,14 @@ reg("C19", "model_checking",
     "Every special-purpose searcher on every TLC-generated (pattern, haystack, start offset) it accepts: end to end for patterns whose selected strategy is a "
     "fast path (Engine.IsMatch/FindIndicesAt/FindAt/FindSubmatchAt vs the reference), and directly for the public searchers constructed as meta/compile.go "
     "constructs them when their own applicability predicate accepts (CharClassSearcher, CompositeSearcher, CompositeSequenceDFA, BranchDispatcher, anchored "
-    "literal matcher, first-byte rejection set)",
+    "literal matcher, first-byte rejection set); TLA+ models of the four reverse-search DRIVERS (spec/ReverseSuffix, ReverseInner, ReverseSuffixSet, "
+    "ReverseSuffixML: candidate loop, anti-quadratic guard, rescan, shortcuts, hand-overs; automata taken as exact) with exactness theorems on the "
+    "families where the driver is right, negative controls (repaired defects and a seeded change), and every answer of the model replayed into the "
+    "directly constructed real searcher at every start offset (model = code is counted; the verdict is the engine vs the reference on patterns whose "
+    "own strategy is that searcher)",
     _NOTE + " A pattern that the selector no longer routes to a fast path is not counted (dropping a fast path violates nothing); per-strategy coverage is reported.",
-    "TLC-generated per-offset vectors replayed end to end by strategy and into directly constructed searchers", "DESIGN.md §6 C19")
+    "TLC-generated per-offset vectors replayed end to end by strategy and into directly constructed searchers; TLC-checked driver models "
+    "(theorems + negative controls) whose behaviours are replayed into the real reverse searchers", "DESIGN.md §6 C19")
 
 reg("C15", "translation_validation",
     "The byte automaton the real compiler produces for each descriptor (classes at every UTF-8 length boundary, negations, folded classes and literals, dot, "
